@@ -30,7 +30,8 @@ RULE = ('pure case = (existing position list, sequence of insert batches); exist
         '"crowded" class puts dense clusters 2**3..2**22 floats apart so that relabel ranges of neighbouring '
         'insert groups overlap. '
         'Enumerated part: every chain of <=3 adjacent floats (gaps 1-3) at 5 anchors x every batch of <=3 '
-        'keys over {at i, after i, +inf, -inf, 0}. Engine case = history of <=30 position-writing bundles. '
+        'keys over {at i, after i, +inf, -inf, 0}, and every pair/triple of adjacent floats at offsets 0..1023 '
+        '(thorough 0..8191) from each anchor with a tie / next-float request. Engine case = history of <=30 position-writing bundles. '
         'Non-trivial = at least one batch/bundle forced a relabel (an adjustment to an existing row); '
         'distinct by the whole case.')
 ORACLE = ('validity predicate written against plain sorted Python lists (bisect), independent of relabeling.py: '
@@ -48,6 +49,9 @@ ASSUMPTIONS = [
   'probe class and counted as skipped-by-precondition, not as a violation',
   'subnormal existing positions are IN the domain (reachable by ~1075 insert-at-top operations); their '
   'AssertionError is listed as known finding C20:subnormal-existing-assert',
+  'an AssertionError is bucketed as C20:spurious-post-relabel-assert only when it comes from the post-relabel '
+  'is_valid_range assert AND the same call on a harness-side copy of relabeling.py compiled without asserts '
+  'returns a result that passes the whole oracle; any other AssertionError is an ordinary violation',
   'legacy non-positive existing positions (0, negatives) are generated as a labelled class because '
   'prep_inserts_at_index documents a renumber-everything fallback for them',
   '_grist_ACLRules row 1 (InitNewDoc special legacy record, "not actually used") keeps the unset position '
@@ -61,6 +65,7 @@ MIN_NORMAL = 2.2250738585072014e-308
 HUGE = 2.0 ** 53
 _MAXORD = 0x7fefffffffffffff
 KNOWN_SUBNORMAL = 'C20:subnormal-existing-assert'
+KNOWN_SPURIOUS = 'C20:spurious-post-relabel-assert'
 
 
 # ---------------------------------------------------------------------------
@@ -209,16 +214,71 @@ def judge(old, keys, adjustments, new_keys):
   return None, None
 
 
+def exc_info(e):
+  """(exception name, text, innermost function, innermost source line)"""
+  import traceback
+  tb = traceback.extract_tb(e.__traceback__)
+  fn = tb[-1].name if tb else ''
+  line = (tb[-1].line or '') if tb else ''
+  return type(e).__name__, '%r at %s:%s' % (e, fn, tb[-1].lineno if tb else 0), fn, line
+
+
 def call_prepare(old, keys):
   sl = SortedListWithKey(old, key=lambda x: x)
   try:
     adjustments, new_keys = relabeling.prepare_inserts(sl, list(keys))
     return None, list(adjustments), list(new_keys)
   except Exception as e:   # pylint: disable=broad-except
-    import traceback
-    tb = traceback.extract_tb(e.__traceback__)
-    where = '%s:%s' % (tb[-1].name, tb[-1].lineno) if tb else ''
-    return (type(e).__name__, '%r at %s' % (e, where)), None, None
+    return exc_info(e), None, None
+
+
+_noassert = [None]
+
+
+def noassert_module():
+  """relabeling.py of the tree under test, compiled harness-side with assert statements stripped."""
+  if _noassert[0] is None:
+    import os, types
+    path = os.path.join(env.GRIST, 'relabeling.py')
+    with open(path) as f:
+      src = f.read()
+    mod = types.ModuleType('relabeling_noassert')
+    mod.__file__ = path
+    exec(compile(src, path, 'exec', optimize=1), mod.__dict__)   # pylint: disable=exec-used
+    _noassert[0] = mod
+  return _noassert[0]
+
+
+def only_the_assert_is_wrong(old, keys):
+  """Used only to bucket an AssertionError by root cause: True when the same call on the assert-free copy
+  returns adjustments and keys that the oracle accepts in full."""
+  try:
+    sl = SortedListWithKey(old, key=lambda x: x)
+    adjustments, new_keys = noassert_module().prepare_inserts(sl, list(keys))
+    bad, _ = judge(old, list(keys), list(adjustments), list(new_keys))
+    return bad is None
+  except Exception:   # pylint: disable=broad-except
+    return False
+
+
+def bucket_exception(out, info, labels, old, keys, tag, detail):
+  """Turn an exception of prepare_inserts into a failure (or a counted precondition skip)."""
+  name, text, fn, line = info
+  if name == 'AssertionError' and fn == '_find_sparse_enough_range' and 'existing:subnormal' in labels:
+    out.cls('FINDING:subnormal-existing-assert')
+    out.fail(KNOWN_SUBNORMAL, '%s: prepare_inserts raised %s with subnormal existing positions' % (tag, text), detail)
+  elif (name == 'AssertionError' and fn == 'prep_inserts_at_index' and 'count_range' in line and
+        'existing:huge' in labels):
+    out.cls('precondition:huge-existing-append-assert(skipped)')
+    out['skipped'] = True
+  elif (name == 'AssertionError' and fn == 'prep_inserts_at_index' and 'is_valid_range' in line and
+        only_the_assert_is_wrong(old, keys)):
+    out.cls('FINDING:spurious-post-relabel-assert')
+    out.fail(KNOWN_SPURIOUS, '%s: prepare_inserts raised %s although the relabeling it had computed is valid '
+             '(a relabeled key coincides with the old value of a neighbour that has itself been moved)' % (tag, text),
+             detail)
+  else:
+    out.fail('C20:%s:raised-%s' % (tag, name), 'prepare_inserts raised %s' % text, detail)
 
 
 def classify_list(cur):
@@ -240,16 +300,7 @@ def one_batch(out, cur, keys, tag):
   exc, adjustments, new_keys = call_prepare(cur, keys)
   detail = {'existing': cur if len(cur) <= 40 else cur[:20] + ['...'] + cur[-20:], 'requested': keys}
   if exc:
-    name, text = exc
-    if name == 'AssertionError' and 'existing:subnormal' in labels:
-      out.cls('FINDING:subnormal-existing-assert')
-      out.fail(KNOWN_SUBNORMAL, '%s: prepare_inserts raised %s with subnormal existing positions' % (tag, text),
-               detail)
-    elif name == 'AssertionError' and 'existing:huge' in labels and 'prep_inserts_at_index' in text:
-      out.cls('precondition:huge-existing-append-assert(skipped)')
-      out['skipped'] = True
-    else:
-      out.fail('C20:%s:raised-%s' % (tag, name), 'prepare_inserts raised %s' % text, detail)
+    bucket_exception(out, exc, labels, cur, keys, tag, detail)
     return None
   bad, info = judge(cur, keys, adjustments, new_keys)
   if bad:
@@ -384,19 +435,19 @@ def check_all_distinct(d, out, when, only=None):
   return True
 
 
-def engine_fail_exc(out, d, r, what, table='T'):
-  name = type(r.error).__name__
-  sub = False
-  try:
-    sub = any(0 < abs(v) < MIN_NORMAL for v in read_positions(d, table, 'manualSort').values())
-  except Exception:   # pylint: disable=broad-except
-    pass
-  if name == 'AssertionError' and sub:
-    out.cls('FINDING:subnormal-existing-assert', 'engine:subnormal-rows')
-    out.fail(KNOWN_SUBNORMAL, 'engine: %s raised %r while the table holds subnormal manualSort values' % (
-      what, r.error), {'action': r.uas})
+def engine_fail_exc(out, d, r, what, table='T', before=None, reqs=None):
+  """A bundle raised. When it was a position write (before/reqs given) and the exception comes out of
+  relabeling.py, bucket it exactly like the pure part does."""
+  info = exc_info(r.error)
+  detail = {'action': r.uas if len(repr(r.uas)) < 2000 else repr(r.uas)[:2000]}
+  if before is not None and info[2] in ('_find_sparse_enough_range', 'prep_inserts_at_index'):
+    cur = sorted(before.values())
+    labels = classify_list(cur)
+    if 'existing:subnormal' in labels:
+      out.cls('engine:subnormal-rows')
+    bucket_exception(out, info, labels, cur, list(reqs), 'engine', detail)
   else:
-    out.fail('C20:engine:raised-' + name, 'engine: %s raised %r' % (what, r.error), {'action': r.uas})
+    out.fail('C20:engine:raised-' + info[0], 'engine: %s raised %s' % (what, info[1]), detail)
 
 
 def check_written(out, before, after, written, what):
@@ -449,7 +500,7 @@ def run_engine(case):
     taken from the action (updates) or from the return value (adds)."""
     r = d.apply([ua])
     if not r.ok:
-      engine_fail_exc(out, d, r, what, t)
+      engine_fail_exc(out, d, r, what, t, before, written_reqs)
       return False
     last_undo[0] = r.undo
     if not check_all_distinct(d, out, what, only):
@@ -480,7 +531,7 @@ def run_engine(case):
       first = min(positions('T').values())
       r = d.apply([['AddRecord', 'T', None, {'A': n, 'manualSort': first}]])
       if not r.ok:
-        engine_fail_exc(out, d, r, 'insert-at-top #%d' % n)
+        engine_fail_exc(out, d, r, 'insert-at-top #%d' % n, 'T', positions('T'), [first])
         break
     if out['ok'] and not check_all_distinct(d, out, 'top-insert prelude'):
       pass
@@ -601,7 +652,7 @@ def run_engine(case):
       out.cls('engine:meta-position-write', 'engine:write:%s.%s' % (mt, mc))
       r = d.apply([['BulkUpdateRecord', mt, rows, {mc: reqs}]])
       if not r.ok:
-        engine_fail_exc(out, d, r, 'BulkUpdateRecord %s.%s' % (mt, mc), t)
+        engine_fail_exc(out, d, r, 'BulkUpdateRecord %s.%s' % (mt, mc), t, mb, reqs)
       else:
         last_undo[0] = r.undo
         if check_all_distinct(d, out, 'BulkUpdateRecord %s.%s' % (mt, mc)):
@@ -627,22 +678,61 @@ def run_engine(case):
 
 def run_case(case):
   case = _d(case)
-  kind = _int(case.get('kind')) % 3
+  kind = _int(case.get('kind')) % 4
   if kind == 1:
     return run_engine(case)
   if kind == 2:
     return run_enum(case)
+  if kind == 3:
+    return run_sweep(case)
   return run_pure(case)
 
 
 # ---------------------------------------------------------------------------
 # generation
 
+def run_sweep(case):
+  """Enumerated: every pair / triple of adjacent floats at 128 consecutive offsets from an anchor, with a tie or
+  next-float request on each row (the alignment of the pair inside the relabel range matters)."""
+  out = Outcome()
+  out.cls('enumerated:offset-sweep')
+  base = ANCHORS[_int(case.get('anchor')) % len(ANCHORS)]
+  block = _int(case.get('block')) % 64
+  w = nt = 0
+  for off in range(block * 128, block * 128 + 128):
+    for n in (2, 3):
+      cur = [skip(base, off + j) for j in range(n)]
+      for q in cur[1:] + [skip(cur[-1], 1)]:
+        w += 1
+        o2 = Outcome()
+        res = one_batch(o2, cur, [q], 'pure')
+        for c in o2['classes']:
+          if c.startswith('FINDING'):
+            out.cls(c)
+        if res is None:
+          if not o2['ok']:
+            out['ok'] = False
+            if not any(f['signature'] == o2['failures'][0]['signature'] for f in out['failures']):
+              out['failures'].extend(o2['failures'][:1])
+          continue
+        if res[1]:
+          nt += 1
+  out['weight'] = w
+  out['nontrivial'] = nt > 0
+  out['nt_weight'] = nt
+  if nt:
+    out.cls('relabel-forced')
+  return out
+
+
 def enumerate_cases(tier):
   for a in range(len(ANCHORS)):
     for n in (0, 1, 2):
       for gaps in itertools.product(range(3), repeat=n):
         yield {'kind': 2, 'anchor': a, 'gaps': list(gaps)}
+  for a in range(len(ANCHORS)):
+    for block in range(8 if tier == 'quick' else 64):
+      yield {'kind': 3, 'anchor': a, 'block': block}
   # the ordinary-use route to subnormal positions: 1074 insert-at-top, then insert above the second row
   yield {'kind': 1, 'halve': 1075, 'ops': [{'o': 0, 'keys': [{'k': 0, 'i': 1}]}]}
   yield {'kind': 1, 'halve': 1030, 'ops': [{'o': 1, 'rep': 60, 'keys': [{'k': 0, 'i': 1}]}]}
